@@ -1,5 +1,5 @@
 (* C06 — static types predict what fragments do when executed.
-   Proved (table level, for every fragment nesting except multisig leaves, every stack below,
+   Proved (table level, for every fragment nesting except raw_pk_h, every stack below,
    every alt stack): on every entry of the specification's (dis)satisfaction table
      * base shapes: B leaves one value (true on satisfaction, exactly 0 on dissatisfaction),
        V leaves nothing, K leaves the key above its (verifying / empty) signature, W leaves its
@@ -7,20 +7,338 @@
      * u: a unit fragment leaves exactly 1 on satisfaction — inside [good] ([goodval]);
      * z / o / n: a fragment typed z consumes no element, typed o exactly one, typed n has a
        non-empty top element when satisfied — [shape].
-   NOT yet proved (kept visible): the "for every input stack" direction (Theorem B: an
-   execution that succeeds used a table entry), d (existence of a signature-free
-   dissatisfaction), f / e / s (statements about all stacks). The per-run check enumerates
-   input stacks for those. *)
+   Proved for EVERY input stack and alt stack (Proofs/Frame*.v; induction over the typing rules of
+   Ms/Types.v, all constructors incl. raw_pk_h, thresh, multi, multi_a; [wf] = constructor
+   invariants), about every SUCCESSFUL execution of the encoded fragment:
+     * (Fr) frame: the alt stack is restored, the input stack splits into a consumed prefix and an
+       untouched rest, the script maps that prefix to the same output in every other frame, and the
+       output has the shape of the base type (B one element, V none, K the key, W the value next to
+       the carried top element, for every carried element) — [C06_frame], [C06_frame_W];
+     * (Z/O) the consumed prefix is empty when typed z, one element when typed o (for K the one
+       argument is the signature left under the key) — [C06_input_class], [C06_z], [C06_o], [C06_o_K];
+     * (N) typed n: a satisfying execution has a non-empty top input element (at least one element is
+       consumed: [C06_input_class]) — [C06_n]; hypothesis [nhyp]: the empty signature never verifies
+       and the empty string is not an acceptable public key (used by multi and pk_h only);
+     * (U) typed u: a true value left is exactly 01 — [C06_u], [C06_u_W];
+     * (D) typed d (and no raw_pk_h): a dissatisfaction built from empty vectors, 01, 32 zero bytes
+       and the fragment's public keys is listed by the table under the EMPTY asset set and leaves
+       exactly 0 — [C06_d]; raw_pk_h is excluded because its key is a hash preimage that need not
+       exist ([C06_d_raw_pkh_remark]).
+     * the per-base-type invariant all of the above are projections of — [C06_frame_invariant].
+   The model's [type_of] has no context argument (cast_dupif never claims u), so no prediction
+   above needs MINIMALIF; (Fr), (Z/O), (U) need no hypothesis on the environment at all (they hold
+   under every signature version). "Non-empty" (not "script-true") is what n promises: a 32-byte
+   negative-zero preimage is a satisfying non-true top element ([C06_n_nonempty_not_true_remark]).
+   Proved (Proofs/SignedSound.v; EVERY input stack, every alt stack, every fragment incl.
+   thresh / multi / multi_a / sortedmulti(_a) / raw_pk_h, every signature version):
+     * frame: a successful run of a well-typed fragment consumes a prefix p of the stack, restores
+       the alt stack and leaves the shape of its base type (B: one value; V: nothing; K: a key;
+       W: its value next to the carried element) — [C06_signed_forced_frame_*];
+     * s (signed): if the type says s and the run is a satisfaction (B/W: true value; V: success;
+       K: key above a signature CHECKSIG accepts) then the consumed prefix p contains a valid
+       signature (hassig); contrapositive with a signature-free stack: [C06_signed_B/V/K/W];
+       script level: an accepted witness of a signed B script contains a valid signature
+       [C06_signed_accepts];
+     * f (forced, malleability dissat = None): if the type says f and the run ends dissatisfied
+       (B/W: false value, in particular exactly 0; K: any termination) then p contains a valid
+       signature; with a signature-free stack: [C06_forced_B/K/W], [C06_forced_B_not_zero].
+     The internal invariant (SignedSound.sound) also proves z / o (consumption counts) and u
+     over all stacks, because s:X needs o and thresh needs u.
+     Hypotheses: type_of m = ROk t, wf e ke m (the constructors' side conditions: timelocks in
+     1..2^31-1, thresholds 1 <= k <= n; both are needed: SignedSound.wf_needed_after0 /
+     wf_needed_multi0). No hypothesis about e_sigok: a "valid signature" is any stack element x
+     with e_sigok e k x = true for some key bytes k. The Script model enforces NULLFAIL,
+     MINIMALIF (outside SvBase) and minimal numbers unconditionally (Script/Exec.v).
+   NOT yet proved (kept visible): Theorem B in full (an execution that succeeds used a table
+   entry) and e (uniqueness of the dissatisfaction / non-malleability over all stacks). The
+   per-run check enumerates input stacks for those. *)
 From Verif Require Import Exec Ser Ast Types TypeCheck SatSpec ExecLemmas TheoremA.
+From Verif Require Import FrameBase FrameSound FrameDissat.
 
 Theorem C06_table_level_partial :
-  forall (e : env) (ke : keyenv) (A : assets),
-  (forall z, (0 <= z < 2147483648)%Z -> num_operand 4 (num_encode z) = Some z) ->
-  (forall z, (0 <= z < 2147483648)%Z -> num_operand 5 (num_encode z) = Some z) ->
-  (forall z, (0 < z < 2147483648)%Z -> truthy (num_encode z) = true) ->
-  (forall v z, num_operand 4 v = Some z -> truthy v = negb (z =? 0)%Z) ->
-  assets_ok e ke A ->
+  forall (e : env) (ke : keyenv) (A : assets), assets_ok e ke A -> (forall kbs, e_sigok e kbs [] = false) ->
   forall (m : ms) (t : ty), type_of m = ROk t -> wf e ke m -> no_multi m ->
     good e ke A m t /\ shape ke A m t.
-Proof. exact theoremA. Qed.
+Proof. exact theoremA_closed. Qed.
 Print Assumptions C06_table_level_partial.
+
+(* ---- every input stack: frame ---- *)
+Theorem C06_frame :
+  forall (e : env) (ke : keyenv) (m : ms) (t : ty), type_of m = ROk t -> wf e ke m ->
+  forall st al r, exec e (enc ke m) (mkSt st al) = Ok r ->
+  exists consumed rest out,
+    st = consumed ++ rest /\ r = mkSt (out ++ rest) al /\
+    (forall rest' al', exec e (enc ke m) (mkSt (consumed ++ rest') al') = Ok (mkSt (out ++ rest') al')) /\
+    out_shape (c_base (t_corr t)) consumed out.
+Proof. exact frame_sound. Qed.
+Print Assumptions C06_frame.
+
+Theorem C06_frame_W :
+  forall (e : env) (ke : keyenv) (m : ms) (t : ty), type_of m = ROk t -> wf e ke m -> c_base (t_corr t) = BW ->
+  forall st al r, exec e (enc ke m) (mkSt st al) = Ok r ->
+  exists c0 w rest v (above : bool),
+    st = c0 :: w ++ rest /\
+    r = mkSt ((if above then [v; c0] else [c0; v]) ++ rest) al /\
+    forall c0' rest' al', exec e (enc ke m) (mkSt (c0' :: w ++ rest') al')
+                          = Ok (mkSt ((if above then [v; c0'] else [c0'; v]) ++ rest') al').
+Proof. exact frame_sound_W. Qed.
+Print Assumptions C06_frame_W.
+
+(* ---- every input stack: z / o (and "n consumes at least one") ---- *)
+Theorem C06_input_class :
+  forall (e : env) (ke : keyenv) (m : ms) (t : ty), type_of m = ROk t -> wf e ke m ->
+  forall st al r, exec e (enc ke m) (mkSt st al) = Ok r ->
+  exists consumed rest out,
+    st = consumed ++ rest /\ r = mkSt (out ++ rest) al /\
+    (forall rest' al', exec e (enc ke m) (mkSt (consumed ++ rest') al') = Ok (mkSt (out ++ rest') al')) /\
+    match c_base (t_corr t) with
+    | BW => c_input (t_corr t) = IAny
+    | b => cnt (c_input (t_corr t)) (nargs b consumed)
+    end.
+Proof. exact input_class_sound. Qed.
+Print Assumptions C06_input_class.
+
+Theorem C06_z :
+  forall (e : env) (ke : keyenv) (m : ms) (t : ty), type_of m = ROk t -> wf e ke m -> c_input (t_corr t) = IZero ->
+  forall st al r, exec e (enc ke m) (mkSt st al) = Ok r ->
+  exists out, r = mkSt (out ++ st) al /\
+    (forall st' al', exec e (enc ke m) (mkSt st' al') = Ok (mkSt (out ++ st') al')) /\
+    out_shape (c_base (t_corr t)) [] out.
+Proof. exact z_sound. Qed.
+Print Assumptions C06_z.
+
+Theorem C06_o :
+  forall (e : env) (ke : keyenv) (m : ms) (t : ty), type_of m = ROk t -> wf e ke m ->
+  c_input (t_corr t) = IOne \/ c_input (t_corr t) = IOneNonZero ->
+  c_base (t_corr t) = BB \/ c_base (t_corr t) = BV ->
+  forall st al r, exec e (enc ke m) (mkSt st al) = Ok r ->
+  exists x rest out, st = x :: rest /\ r = mkSt (out ++ rest) al /\
+    (forall rest' al', exec e (enc ke m) (mkSt (x :: rest') al') = Ok (mkSt (out ++ rest') al')) /\
+    out_shape (c_base (t_corr t)) [x] out.
+Proof. exact o_sound. Qed.
+Print Assumptions C06_o.
+
+Theorem C06_o_K :
+  forall (e : env) (ke : keyenv) (m : ms) (t : ty), type_of m = ROk t -> wf e ke m ->
+  c_input (t_corr t) = IOne \/ c_input (t_corr t) = IOneNonZero -> c_base (t_corr t) = BK ->
+  forall st al r, exec e (enc ke m) (mkSt st al) = Ok r ->
+  exists k, r = mkSt (k :: st) al /\
+    forall st' al', exec e (enc ke m) (mkSt st' al') = Ok (mkSt (k :: st') al').
+Proof. exact o_sound_K. Qed.
+Print Assumptions C06_o_K.
+
+(* ---- every input stack: n ---- *)
+Theorem C06_n :
+  forall (e : env) (ke : keyenv) (m : ms) (t : ty),
+  nhyp e -> type_of m = ROk t -> wf e ke m -> isn (c_input (t_corr t)) = true ->
+  forall st al r, exec e (enc ke m) (mkSt st al) = Ok r ->
+  match c_base (t_corr t) with
+  | BB => forall v rest', stk r = v :: rest' -> truthy v = true -> top_ne st
+  | BV => top_ne st
+  | BK => forall k rest', stk r = k :: rest' -> ksat e k rest' -> top_ne st
+  | BW => True
+  end.
+Proof. exact n_sound. Qed.
+Print Assumptions C06_n.
+
+(* n is "not the empty vector", not "script-true": a negative-zero preimage satisfies a hash fragment *)
+Theorem C06_n_nonempty_not_true_remark :
+  exists (e : env) (ke : keyenv) (m : ms) (t : ty) (x : bytes),
+    nhyp e /\ type_of m = ROk t /\ wf e ke m /\ isn (c_input (t_corr t)) = true /\ c_base (t_corr t) = BB /\
+    exec e (enc ke m) (mkSt [x] []) = Ok (mkSt [[1%N]] []) /\ x <> [] /\ truthy x = false.
+Proof. exact n_is_nonempty_not_script_true. Qed.
+Print Assumptions C06_n_nonempty_not_true_remark.
+
+(* ---- every input stack: u ---- *)
+Theorem C06_u :
+  forall (e : env) (ke : keyenv) (m : ms) (t : ty),
+  type_of m = ROk t -> wf e ke m -> c_unit (t_corr t) = true -> c_base (t_corr t) = BB ->
+  forall st al r, exec e (enc ke m) (mkSt st al) = Ok r ->
+  exists v rest, stk r = v :: rest /\ (truthy v = true -> v = [1%N]).
+Proof. exact u_sound. Qed.
+Print Assumptions C06_u.
+
+Theorem C06_u_W :
+  forall (e : env) (ke : keyenv) (m : ms) (t : ty),
+  type_of m = ROk t -> wf e ke m -> c_unit (t_corr t) = true -> c_base (t_corr t) = BW ->
+  forall c0 st al r, exec e (enc ke m) (mkSt (c0 :: st) al) = Ok r ->
+  exists v rest, (stk r = v :: c0 :: rest \/ stk r = c0 :: v :: rest) /\ (truthy v = true -> v = [1%N]).
+Proof. exact u_sound_W. Qed.
+Print Assumptions C06_u_W.
+
+(* ---- d: a signature-free input on which the fragment leaves exactly 0 ---- *)
+Theorem C06_d :
+  forall (e : env) (ke : keyenv), keys_ok e ke -> (forall kbs, e_sigok e kbs [] = false) ->
+  forall (m : ms) (t : ty), type_of m = ROk t -> wf e ke m -> no_multi m -> c_dissat (t_corr t) = true ->
+  exists w, In w (all_dsat ke A0 m) /\ Forall (sf_elt ke) w /\
+    match c_base (t_corr t) with
+    | BB => forall rest al, exec e (enc ke m) (mkSt (w ++ rest) al) = Ok (mkSt ([] :: rest) al)
+    | BK => forall rest al, exists kbs,
+              exec e (enc ke m) (mkSt (w ++ rest) al) = Ok (mkSt (kbs :: [] :: rest) al) /\ e_keyok e kbs = true
+    | BW => forall c rest al,
+              exec e (enc ke m) (mkSt (c :: w ++ rest) al) = Ok (mkSt ([] :: c :: rest) al) \/
+              exec e (enc ke m) (mkSt (c :: w ++ rest) al) = Ok (mkSt (c :: [] :: rest) al)
+    | BV => False
+    end.
+Proof. exact d_sound. Qed.
+Print Assumptions C06_d.
+
+Theorem C06_d_raw_pkh_remark :
+  exists (e : env) (ke : keyenv) (m : ms) (t : ty),
+    type_of m = ROk t /\ wf e ke m /\ c_base (t_corr t) = BB /\ c_dissat (t_corr t) = true /\
+    forall st al, exec e (enc ke m) (mkSt st al) = Fail.
+Proof. exact d_raw_pkh_needs_preimage. Qed.
+Print Assumptions C06_d_raw_pkh_remark.
+
+(* ---- the invariant behind the all-stacks statements ---- *)
+Theorem C06_frame_invariant :
+  forall (e : env) (ke : keyenv) (m : ms) (t : ty), type_of m = ROk t -> wf e ke m -> inv e (enc ke m) t.
+Proof. exact frame_inv. Qed.
+Print Assumptions C06_frame_invariant.
+
+(* ---- non-vacuity: the hypotheses are satisfiable and successful executions exist ---- *)
+Example C06_frame_nonvacuous :
+  nhyp ex_env /\
+  (exists t, type_of ex_ms = ROk t /\ c_base (t_corr t) = BB /\ c_unit (t_corr t) = false) /\
+  wf ex_env ex_ke ex_ms /\
+  exec ex_env (enc ex_ke ex_ms) (mkSt [[2;0;1]; [9]]%N [[7%N]]) = Ok (mkSt [[1]; [9]]%N [[7%N]]) /\
+  exec ex_env (enc ex_ke ex_ms) (mkSt [[]; [2;1]; [2;1;1]; [9]]%N [[7%N]]) = Ok (mkSt [[10]; [9]]%N [[7%N]]) /\
+  (exists t, type_of ex_ms2 = ROk t /\ c_base (t_corr t) = BB /\ c_unit (t_corr t) = true) /\
+  wf ex_env ex_ke ex_ms2 /\
+  exec ex_env (enc ex_ke ex_ms2) (mkSt [[2;0;1]; []; [2;3;1]; []; [9]]%N []) = Ok (mkSt [[1]; [9]]%N []).
+Proof. exact (conj ex_nhyp (conj ex_typed (conj ex_wf (conj ex_run1 (conj ex_run2 (conj ex2_typed (conj ex2_wf ex2_run))))))). Qed.
+
+Example C06_d_nonvacuous :
+  keys_ok exd_env exd_ke /\ (forall kbs, e_sigok exd_env kbs [] = false) /\
+  (exists t, type_of exd_ms = ROk t /\ c_base (t_corr t) = BB /\ c_dissat (t_corr t) = true) /\
+  wf exd_env exd_ke exd_ms /\ no_multi exd_ms.
+Proof. exact (conj exd_keys (conj exd_sig (conj exd_typed exd_wf))). Qed.
+
+(* ---- every input stack: signed / forced (imported here, after the frame statements) ---- *)
+From Verif Require Import SignedLemmas SignedSound.
+
+(* ---- s / f over every input stack ---- *)
+Theorem C06_signed_forced_frame_B :
+  forall (e : env) (ke : keyenv) (m : ms) (t : ty),
+  type_of m = ROk t -> wf e ke m -> c_base (t_corr t) = BB ->
+  forall s al st', exec e (enc ke m) (mkSt s al) = Ok st' ->
+  exists v p s', s = p ++ s' /\ st' = mkSt (v :: s') al /\
+    (m_signed (t_mall t) = true -> truthy v = true -> hassig e p) /\
+    (m_dissat (t_mall t) = DNone -> truthy v = false -> hassig e p).
+Proof. exact signed_forced_frame_B. Qed.
+Print Assumptions C06_signed_forced_frame_B.
+
+Theorem C06_signed_frame_V :
+  forall (e : env) (ke : keyenv) (m : ms) (t : ty),
+  type_of m = ROk t -> wf e ke m -> c_base (t_corr t) = BV ->
+  forall s al st', exec e (enc ke m) (mkSt s al) = Ok st' ->
+  exists p s', s = p ++ s' /\ st' = mkSt s' al /\ (m_signed (t_mall t) = true -> hassig e p).
+Proof. exact signed_frame_V. Qed.
+Print Assumptions C06_signed_frame_V.
+
+Theorem C06_signed_forced_frame_K :
+  forall (e : env) (ke : keyenv) (m : ms) (t : ty),
+  type_of m = ROk t -> wf e ke m -> c_base (t_corr t) = BK ->
+  m_signed (t_mall t) = true /\
+  forall s al st', exec e (enc ke m) (mkSt s al) = Ok st' ->
+  exists kk p s', s = p ++ s' /\ st' = mkSt (kk :: s') al /\
+    (m_dissat (t_mall t) = DNone -> hassig e p).
+Proof. exact signed_forced_frame_K. Qed.
+Print Assumptions C06_signed_forced_frame_K.
+
+Theorem C06_signed_forced_frame_W :
+  forall (e : env) (ke : keyenv) (m : ms) (t : ty),
+  type_of m = ROk t -> wf e ke m -> c_base (t_corr t) = BW ->
+  forall s0 al st', exec e (enc ke m) (mkSt s0 al) = Ok st' ->
+  exists c v p s', s0 = c :: p ++ s' /\
+    (st' = mkSt (c :: v :: s') al \/ st' = mkSt (v :: c :: s') al) /\
+    (m_signed (t_mall t) = true -> truthy v = true -> hassig e p) /\
+    (m_dissat (t_mall t) = DNone -> truthy v = false -> hassig e p).
+Proof. exact signed_forced_frame_W. Qed.
+Print Assumptions C06_signed_forced_frame_W.
+
+Theorem C06_signed_B :
+  forall (e : env) (ke : keyenv) (m : ms) (t : ty),
+  type_of m = ROk t -> wf e ke m -> c_base (t_corr t) = BB -> m_signed (t_mall t) = true ->
+  forall s al st', sigfree e s -> exec e (enc ke m) (mkSt s al) = Ok st' ->
+  exists v r, stk st' = v :: r /\ truthy v = false.
+Proof. exact signed_B. Qed.
+Print Assumptions C06_signed_B.
+
+Theorem C06_signed_V :
+  forall (e : env) (ke : keyenv) (m : ms) (t : ty),
+  type_of m = ROk t -> wf e ke m -> c_base (t_corr t) = BV -> m_signed (t_mall t) = true ->
+  forall s al, sigfree e s -> exec e (enc ke m) (mkSt s al) = Fail.
+Proof. exact signed_V. Qed.
+Print Assumptions C06_signed_V.
+
+Theorem C06_signed_K :
+  forall (e : env) (ke : keyenv) (m : ms) (t : ty),
+  type_of m = ROk t -> wf e ke m -> c_base (t_corr t) = BK ->
+  forall s al st', sigfree e s -> exec e (enc ke m) (mkSt s al) = Ok st' ->
+  forall kk sg r, stk st' = kk :: sg :: r -> e_sigok e kk sg = false.
+Proof. exact signed_K. Qed.
+Print Assumptions C06_signed_K.
+
+Theorem C06_signed_W :
+  forall (e : env) (ke : keyenv) (m : ms) (t : ty),
+  type_of m = ROk t -> wf e ke m -> c_base (t_corr t) = BW -> m_signed (t_mall t) = true ->
+  forall c s al st', sigfree e s -> exec e (enc ke m) (mkSt (c :: s) al) = Ok st' ->
+  exists v s', (stk st' = c :: v :: s' \/ stk st' = v :: c :: s') /\ truthy v = false.
+Proof. exact signed_W. Qed.
+Print Assumptions C06_signed_W.
+
+Theorem C06_signed_accepts :
+  forall (e : env) (ke : keyenv) (m : ms) (t : ty),
+  type_of m = ROk t -> wf e ke m -> c_base (t_corr t) = BB -> m_signed (t_mall t) = true ->
+  forall w, accepts e (enc ke m) w = true -> hassig e w.
+Proof. exact signed_accepts. Qed.
+Print Assumptions C06_signed_accepts.
+
+Theorem C06_forced_B :
+  forall (e : env) (ke : keyenv) (m : ms) (t : ty),
+  type_of m = ROk t -> wf e ke m -> c_base (t_corr t) = BB -> m_dissat (t_mall t) = DNone ->
+  forall s al st', sigfree e s -> exec e (enc ke m) (mkSt s al) = Ok st' ->
+  exists v r, stk st' = v :: r /\ truthy v = true.
+Proof. exact forced_B. Qed.
+Print Assumptions C06_forced_B.
+
+Theorem C06_forced_B_not_zero :
+  forall (e : env) (ke : keyenv) (m : ms) (t : ty),
+  type_of m = ROk t -> wf e ke m -> c_base (t_corr t) = BB -> m_dissat (t_mall t) = DNone ->
+  forall s al r al', sigfree e s -> exec e (enc ke m) (mkSt s al) <> Ok (mkSt ([] :: r) al').
+Proof. exact forced_B_not_zero. Qed.
+Print Assumptions C06_forced_B_not_zero.
+
+Theorem C06_forced_K :
+  forall (e : env) (ke : keyenv) (m : ms) (t : ty),
+  type_of m = ROk t -> wf e ke m -> c_base (t_corr t) = BK -> m_dissat (t_mall t) = DNone ->
+  forall s al, sigfree e s -> exec e (enc ke m) (mkSt s al) = Fail.
+Proof. exact forced_K. Qed.
+Print Assumptions C06_forced_K.
+
+Theorem C06_forced_W :
+  forall (e : env) (ke : keyenv) (m : ms) (t : ty),
+  type_of m = ROk t -> wf e ke m -> c_base (t_corr t) = BW -> m_dissat (t_mall t) = DNone ->
+  forall c s al st', sigfree e s -> exec e (enc ke m) (mkSt (c :: s) al) = Ok st' ->
+  exists v s', (stk st' = c :: v :: s' \/ stk st' = v :: c :: s') /\ truthy v = true.
+Proof. exact forced_W. Qed.
+Print Assumptions C06_forced_W.
+
+(* non-vacuity: a signed fragment meeting the hypotheses; signature-free stacks are rejected
+   (NULLFAIL) or end dissatisfied, a stack with a valid signature satisfies it; a forced fragment
+   fails without a signature and can be dissatisfied once a signature has been consumed *)
+Example C06_signed_nonvacuous :
+  (exists t, type_of sg_pk = ROk t /\ c_base (t_corr t) = BB /\ m_signed (t_mall t) = true /\ wf sg_env sg_ke sg_pk) /\
+  (sigfree sg_env [[1%N]; [5%N]] /\ sigfree sg_env [[]; [5%N]]) /\
+  exec sg_env (enc sg_ke sg_pk) (mkSt [[1%N]; [5%N]] []) = Fail /\
+  exec sg_env (enc sg_ke sg_pk) (mkSt [[]; [5%N]] []) = Ok (mkSt [[]; [5%N]] []) /\
+  exec sg_env (enc sg_ke sg_pk) (mkSt [[7%N]; [5%N]] []) = Ok (mkSt [[1%N]; [5%N]] []).
+Proof. exact (conj sg_pk_type (conj sg_pk_sigfree sg_pk_rejects)). Qed.
+Example C06_forced_nonvacuous :
+  (exists t, type_of sg_forced = ROk t /\ c_base (t_corr t) = BB /\ m_signed (t_mall t) = true
+             /\ m_dissat (t_mall t) = DNone /\ wf sg_env sg_ke sg_forced) /\
+  exec sg_env (enc sg_ke sg_forced) (mkSt [[]; []] []) = Fail /\
+  exec sg_env (enc sg_ke sg_forced) (mkSt [[7%N]; []] []) = Ok (mkSt [[]] []) /\
+  exec sg_env (enc sg_ke sg_forced) (mkSt [[7%N]; [7%N]] []) = Ok (mkSt [[1%N]] []).
+Proof. exact (conj sg_forced_type sg_forced_runs). Qed.
